@@ -67,7 +67,7 @@ fn reference(c: &Case) -> Expect {
     let vals: Vec<Option<u64>> = c.cl.iter().map(|v| cl_valid(v)).collect();
     let cl_bad = vals.iter().any(|v| v.is_none()) || vals.windows(2).any(|w| w[0] != w[1]);
     let no_body = c.method == "HEAD" || (100..200).contains(&c.status) || c.status == 204 || c.status == 304;
-    let chunked = c.te.as_deref().map_or(false, |t| {
+    let chunked = c.te.as_deref().filter(|t| !t.starts_with("CE=")).map_or(false, |t| {
         t.split(|c| c == ',' || c == '|').last().map_or(false, |l| l.trim().eq_ignore_ascii_case("chunked"))
     });
     if no_body {
@@ -95,6 +95,16 @@ fn reference(c: &Case) -> Expect {
     Expect::Body(raw)
 }
 
+fn write_te(w: &mut Vec<u8>, te: &str) {
+    if let Some(ce) = te.strip_prefix("CE=") {
+        w.extend_from_slice(format!("Content-Encoding: {ce}\r\n").as_bytes());
+        return;
+    }
+    for line in te.split('|') {
+        w.extend_from_slice(format!("Transfer-Encoding: {line}\r\n").as_bytes());
+    }
+}
+
 fn wire(c: &Case) -> Vec<u8> {
     let mut w = format!("HTTP/1.1 {} X\r\n", c.status).into_bytes();
     if c.location {
@@ -107,9 +117,7 @@ fn wire(c: &Case) -> Vec<u8> {
     for (i, v) in c.cl.iter().enumerate() {
         if i == 1 {
             if let Some(te) = &c.te {
-                for line in te.split('|') {
-                    w.extend_from_slice(format!("Transfer-Encoding: {line}\r\n").as_bytes());
-                }
+                write_te(&mut w, te);
             }
         }
         w.extend_from_slice(format!("Content-Length: {v}\r\n").as_bytes());
@@ -117,9 +125,7 @@ fn wire(c: &Case) -> Vec<u8> {
     if c.cl.len() < 2 {
         if let Some(te) = &c.te {
             // '|' separates field lines: a coding list may be spread over several Transfer-Encoding fields
-            for line in te.split('|') {
-                w.extend_from_slice(format!("Transfer-Encoding: {line}\r\n").as_bytes());
-            }
+            write_te(&mut w, te);
         }
     }
     w.extend_from_slice(b"\r\n");
@@ -260,6 +266,11 @@ pub fn c03(ctx: &Ctx) -> Report {
         vec!["18446744073709551616"],
         vec!["99999999999999999999999"],
         vec!["+5"],
+        vec!["5\u{0}"],
+        vec!["5\r6"],
+        vec!["\u{7f}"],
+        vec!["5", "10\u{1}"],
+        vec!["10\u{1}", "5"],
         vec!["5", "+5"],
         vec!["5", "5", "5", "6"],
         vec!["5", "5", "5", "5", "6"],
@@ -282,6 +293,9 @@ pub fn c03(ctx: &Ctx) -> Report {
         Some("unchunked"),
         Some("identity, X-Chunked"),
         Some("chunked-v2"),
+        // no Transfer-Encoding at all: a *Content*-Encoding that says chunked is not a framing
+        Some("CE=chunked"),
+        Some("CE=identity, Chunked"),
     ];
     let mut cases = Vec::new();
     for m in methods {
